@@ -55,6 +55,9 @@ def svals():
     out += ["(f64 0 0)", "(f64 4607182418800017408 1065353216)", "(f64 9221120237041090560 2143289344)"]
     out += ["(char 97)", "(char 233)", "(char 128512)"]
     strs = ["", "A", "B", "Null", "abcd", "12.5", "-0.01", "1", "months", "ns.R", "E", "00000000-0000-0000-0000-000000000000", "é", "123456789012"]
+    # strings whose char count differs from their UTF-8 length, at the lengths that matter to some node (fixed of 4,
+    # duration's 12): 4 bytes / 2 chars, 4 bytes / 1 char, 4 chars / 8 bytes, 4 chars / 6 bytes, 12 bytes / 6 chars, 12 chars / 36 bytes
+    strs += ["\u00e9\u00e9", "\U0001F600", "\u00e9\u00e9\u00e9\u00e9", "a\u20acbc", "\u00e9" * 6, "\u20ac" * 12]
     out += ["(str %s)" % hx(s) for s in strs]
     bts = [b"", b"abcd", b"\x00" * 12, b"\xff\xfe", b"A", b"\x01\x02", struct.pack("<III", 1, 2, 3)]
     out += ["(bytes %s)" % hx(b) for b in bts]
